@@ -154,6 +154,7 @@ tree after the `name` callback, handed on by `toR`).  Theorems quantify over ALL
   Verilog fragment above; through `resolve_tlib_cells` it is a theorem for modules of the fragment over certified combinational
   library cells (capstone Props/C11Library.lean: `verilog_parsed_sem_holes`, `verilog_resolved_rel`, `verilog_resolved_datasheet`,
   `verilog_library_end_to_end` — text → parse → resolve → SimOps → LogicSim = the DATASHEET denotation `VModelLib` of the module;
+  hypotheses `tlFitsB` / `vArityLibB`: inside them the library pins are read BY NAME, `verilog_library_by_name`;
   tie `harness/c11.py: library_sem`); it stays oracle-only for Verilog modules outside the fragment and for library cells outside
   those hypotheses (sequential / tri-state / tie cells, unconnected pins, substitutions that remove logic). -/
 namespace KV.C11
